@@ -32,6 +32,9 @@ VARIANTS = ("W", "R", "S3", "S4", "N", "Nn", "O")
 GLAB = {"str": ["a", "b", "c", "d"], "int": [3, 10, 20, 35]}
 CLAB = ["p", "q"]
 AGG_KEYS = ("gmin", "gmax", "db", "do", "rb", "ro")
+# named metric -> (base metric, transform) of the equivalent make_derived_metric(...) function
+DERIVED = {"dpd": ("selection_rate", "difference"), "dpr": ("selection_rate", "ratio"),
+           "eoppd": ("true_positive_rate", "difference"), "eoppr": ("true_positive_rate", "ratio")}
 
 
 # ------------------------------------------------------------------------------------------- helpers
@@ -60,13 +63,31 @@ def same(a, b):
     return a[1:] == b[1:]
 
 
+SERIES_KINDS = ("series", "series_perm", "series_off", "series_str")
+CONTAINERS = ("list", "array") + SERIES_KINDS
+
+
+def index_of(kind, n):
+    """pandas index labels of a Series container: default RangeIndex, a fixed permutation of 0..n-1, labels shifted by 2
+    (partly overlapping 0..n-1), or shuffled strings.  Rows are always meant POSITIONALLY; the labels must not matter."""
+    perm = sorted(range(n), key=lambda i: ((i + 1) * 2654435761) % 1000003)
+    if kind == "series_perm":
+        return perm
+    if kind == "series_off":
+        return [i + 2 for i in range(n)]
+    if kind == "series_str":
+        return ["r%d" % i for i in perm]
+    return None
+
+
 def box(values, kind, name=None):
     if kind == "list":
         return list(values)
     if kind == "array":
         return np.array(values)
-    if kind == "series":
-        return pd.Series(list(values), name=name)
+    if kind in SERIES_KINDS:
+        vals = list(values)
+        return pd.Series(vals, name=name, index=index_of(kind, len(vals)))
     if kind == "frame":
         return pd.DataFrame({name or "c0": list(values)})
     if kind == "dict":
@@ -233,12 +254,12 @@ class CHECK(Check):
     design_ref = "DESIGN.md section 4, C11"
     quick_cases = 200
     thorough_cases = 6000
-    quick_budget_s = 110
+    quick_budget_s = 100
     thorough_budget_s = 900
     workers_thorough = 6
     rule = ("datasets of 1..8 rows over label encodings {0,1} / {-1,1}, dyadic scores, 1..4 sensitive groups (str or int "
             "labels, optional 2-level control feature), positive integer weights 1..5 (a second independent weight vector for "
-            "the mixed dict frame), containers list/ndarray/Series/DataFrame/dict; variants W,R,S3,S4,N,Nn,O as in the module "
+            "the mixed dict frame), containers drawn independently for y_true/y_pred, the weights and the sensitive feature from list / ndarray / pandas Series with default, permuted, shifted (i+2) or string index labels (+ DataFrame for y and sf, dict for sf) - rows are paired positionally, the oracle ignores the labels; the named metrics dpd/dpr/eoppd/eoppr are called through make_derived_metric(...) in 40% of the cases; variants W,R,S3,S4,N,Nn,O as in the module "
             "docstring; six base metrics on every variant, a dict MetricFrame (3 of 6 metrics) on W/R, a callable MetricFrame on "
             "W/S3/S4/N/O, a dict MetricFrame whose metrics get different weight vectors, 2 named fairness metrics on W/R and 1 "
             "on S3/S4/N/O, and a callable MetricFrame with TWO sample parameters (a = k, ids = 8*score+1; metric sum(a*ids)) on "
@@ -275,16 +296,19 @@ class CHECK(Check):
                 k = [1] * n
             k2 = [rng.randint(1, 4) for _ in range(n)]
             pos = rng.choice([None, None, labs[0], labs[1]])
-            cont = {"y": rng.choice(["list", "array", "series", "frame"]),
-                    "w": rng.choice(["list", "array", "series"]),
-                    "sf": rng.choice(["list", "array", "series", "frame", "dict"])}
+            # every argument gets its own container and its own pandas index labels (pairs are covered within a few
+            # dozen cases); the weight vector is a labelled Series in half of the cases
+            cont = {"y": rng.choice(list(CONTAINERS) + ["frame"]),
+                    "w": rng.choice(list(CONTAINERS) + ["series_perm", "series_off", "series_str"]),
+                    "sf": rng.choice(list(CONTAINERS) + ["frame", "dict"])}
             dm = rng.sample(BASE, 3)
             cm = rng.choice(BASE)
             named = rng.sample(NAMED, 2)
             yield {"enc": enc, "yt": yt, "yp": yp, "score": score, "g": g, "gtype": rng.choice(["str", "int"]), "cf": cf,
                    "k": k, "k2": k2, "pos": pos, "cont": cont, "dict_metrics": dm, "call_metric": cm,
                    "call_score": cm == "mp" and rng.random() < 0.7, "named": named, "named1": rng.choice(NAMED),
-                   "method": rng.choice(["between", "overall"]), "agg": rng.choice(["worst", "mean"])}
+                   "method": rng.choice(["between", "overall"]), "agg": rng.choice(["worst", "mean"]),
+                   "derived": rng.random() < 0.4}
 
     def exhaustive(self, tier):
         # every dataset of 1..3 rows over {0,1}, two groups, weights in {1,2,3} for the first row (single weighted rows)
@@ -317,6 +341,11 @@ class CHECK(Check):
             yield dict(case, cf=None)
         if any(v != "list" for v in case["cont"].values()):
             yield dict(case, cont={"y": "list", "w": "list", "sf": "list"})
+            for key, v in case["cont"].items():
+                if v != "list":
+                    yield dict(case, cont=dict(case["cont"], **{key: "list"}))
+        if case.get("derived"):
+            yield dict(case, derived=False)
         for i in range(n):
             if case["k"][i] > 1:
                 yield dict(case, k=case["k"][:i] + [case["k"][i] - 1] + case["k"][i + 1:])
@@ -347,7 +376,7 @@ class CHECK(Check):
     def _cf(self, case, mult):
         if case["cf"] is None:
             return None
-        return box(rep([CLAB[x] for x in case["cf"]], mult), "series" if case["cont"]["sf"] != "list" else "list", "cfeat")
+        return box(rep([CLAB[x] for x in case["cf"]], mult), ("series_str" if case["cont"]["sf"] in SERIES_KINDS else "series") if case["cont"]["sf"] != "list" else "list", "cfeat")
 
     def _frame(self, case, metrics, weights, mult, y_pred_vals):
         """metrics: ordered dict name -> function (or a single (name, function) tuple for the callable form);
@@ -541,7 +570,13 @@ class CHECK(Check):
                 kw["sample_weight"] = None if w == "none" else box(w, case["cont"]["w"], "w")
             yt = box(rep(case["yt"], mult), case["cont"]["y"], "yt")
             yp = box(rep(case["yp"], mult), case["cont"]["y"], "yp")
-            return cg(lambda: nfn[nm](yt, yp, sensitive_features=self._sf(case, mult), **kw))
+            fn = nfn[nm]
+            if case.get("derived") and nm in DERIVED:
+                # the same quantity through the public make_derived_metric entry point
+                import fairlearn.metrics as fm
+                base, transform = DERIVED[nm]
+                fn = fm.make_derived_metric(metric=getattr(fm, base), transform=transform)
+            return cg(lambda: fn(yt, yp, sensitive_features=self._sf(case, mult), **kw))
         for v in ("W", "R"):
             out["named"][v] = {nm: named(nm, v) for nm in case["named"]}
         for v in ("S3", "S4", "N", "Nn", "O"):
@@ -849,7 +884,11 @@ class CHECK(Check):
                 "control_feature" if case["cf"] is not None else "no_control_feature",
                 f"maxk={max(case['k'])}", f"replicated_rows={sum(case['k'])}",
                 "single_row_group" if 1 in sizes else "no_single_row_group",
-                f"call_metric={case['call_metric']}", f"method={case['method']}", f"agg={case['agg']}"]
+                f"call_metric={case['call_metric']}", f"method={case['method']}", f"agg={case['agg']}",
+                "entry=make_derived_metric" if case.get("derived") and any(x in DERIVED for x in list(case["named"]) + [case["named1"]])
+                else "entry=named_functions_only",
+                "w_index=" + ("labelled" if case["cont"]["w"] in SERIES_KINDS[1:] else "positional_container"),
+                "pair:y,w=%s,%s" % (case["cont"]["y"], case["cont"]["w"])]
         if lone_weighted:
             tags.append("single_weighted_row_group")
         for nm in case["named"]:
@@ -861,5 +900,6 @@ class CHECK(Check):
             pass
         key = (case["enc"], tuple(case["yt"]), tuple(case["yp"]), tuple(case["score"]), tuple(g), case["gtype"],
                tuple(case["cf"] or ()), tuple(case["k"]), tuple(case["k2"]), case["pos"], tuple(sorted(case["cont"].items())),
-               tuple(case["dict_metrics"]), case["call_metric"], tuple(case["named"]), case["method"], case["agg"])
+               tuple(case["dict_metrics"]), case["call_metric"], tuple(case["named"]), case["method"], case["agg"],
+               bool(case.get("derived")))
         return key, any(x > 1 for x in case["k"]), tags
